@@ -987,17 +987,86 @@ def p_qubit(ctx: Ctx, scale: int):
                 ctx.count("physics", "qubit-scbk-ok")
 
 
-# name: (geometry, spin = N_alpha − N_beta, active spaces (n_active_ele, n_active_orb, explicit list | None))
+# name: (gto.M keyword arguments, active spaces (n_active_ele, n_active_orb, explicit list | None) or None = drawn by
+# `auto_spaces`).  The first four are the all-electron sto-3g molecules with hand-picked spaces; the others vary the molecule
+# CONFIGURATION (effective core potentials, GTH pseudopotentials, charge, spin multiplicity, basis sets incl. per-atom dictionaries
+# and hand-written shells, cartesian d functions, length unit, point-group symmetry): everything PySCF itself accounts for in its
+# core Hamiltonian / integrals must reach both integral paths.
+STO3G = {"basis": "sto-3g"}
 MOLECULES = {
-    "H2": ("H 0 0 0; H 0 0 0.74", 0,
+    "H2": ({"atom": "H 0 0 0; H 0 0 0.74", **STO3G},
            [(2, 2, None), (2, 2, [0, 1]), (2, 2, (1, 0)), (0, 0, None), (2, 1, None), (0, 1, [1])]),
-    "H3": ("H 0 0 0; H 0 0 0.9; H 0 0 1.9", 1,
+    "H3": ({"atom": "H 0 0 0; H 0 0 0.9; H 0 0 1.9", "spin": 1, **STO3G},
            [(1, 1, None), (1, 2, None), (3, 3, None), (1, 2, [2, 1]), (3, 2, [0, 1]), (3, 3, (2, 0, 1)), (1, 1, [2])]),
-    "LiH": ("Li 0 0 0; H 0 0 1.6", 0,
+    "LiH": ({"atom": "Li 0 0 0; H 0 0 1.6", **STO3G},
             [(2, 2, None), (2, 3, [1, 2, 5]), (4, 3, None), (2, 2, [5, 2]), (4, 3, [1, 2, 3]), (0, 0, None), (2, 3, (4, 1, 3))]),
-    "H2O": ("O 0 0 0; H 0 0.757 0.587; H 0 -0.757 0.587", 0,
+    "H2O": ({"atom": "O 0 0 0; H 0 0.757 0.587; H 0 -0.757 0.587", **STO3G},
             [(4, 4, None), (2, 2, None), (4, 3, [3, 4, 6]), (6, 4, [2, 3, 4, 5]), (4, 3, [6, 4, 3]), (0, 0, [])]),
+    "NaH/lanl2dz-ECP": ({"atom": "Na 0 0 0; H 0 0 1.9", "basis": {"Na": "lanl2dz", "H": "sto-3g"}, "ecp": {"Na": "lanl2dz"}}, None),
+    "LiH/crenbl-ECP": ({"atom": "Li 0 0 0; H 0 0 1.6", "basis": {"Li": "crenbl", "H": "sto-3g"}, "ecp": {"Li": "crenbl"}}, None),
+    "HeH+/6-31g": ({"atom": "He 0 0 0; H 0 0 0.8", "basis": "6-31g", "charge": 1}, None),
+    "LiH+ doublet": ({"atom": "Li 0 0 0; H 0 0 1.6", "charge": 1, "spin": 1, **STO3G}, None),
+    "H2 triplet/6-31g": ({"atom": "H 0 0 0; H 0 0 1.2", "basis": "6-31g", "spin": 2}, None),
+    "H2 cartesian d shell": ({"atom": "H1 0 0 0; H2 0 0 0.8", "cart": True,
+                              "basis": {"H1": [[0, [1.2, 1.0]], [2, [0.8, 1.0]]], "H2": [[0, [0.6, 1.0]]]}}, None),
+    "H2 spherical d shell": ({"atom": "H1 0 0 0; H2 0 0 0.8",
+                              "basis": {"H1": [[0, [1.2, 1.0]], [2, [0.8, 1.0]]], "H2": [[0, [0.6, 1.0]]]}}, None),
+    "H2 in Bohr": ({"atom": "H 0 0 0; H 0 0 1.4", "unit": "Bohr", **STO3G}, None),
+    "H2/GTH": ({"atom": "H 0 0 0; H 0 0 0.74", "basis": "gth-szv", "pseudo": "gth-pade"}, None),
+    "Li2/GTH": ({"atom": "Li 0 0 0; Li 0 0 2.7", "basis": "gth-szv", "pseudo": "gth-pade"}, None),
+    "H2O with symmetry": ({"atom": "O 0 0 0; H 0 0.757 0.587; H 0 -0.757 0.587", "symmetry": True, **STO3G}, None),
+    "LiH/6-31g* cartesian": ({"atom": "Li 0 0 0; H 0 0 1.6", "basis": "6-31g*", "cart": True}, None),
+    "NaH+/lanl2dz-ECP doublet": ({"atom": "Na 0 0 0; H 0 0 1.9", "basis": "lanl2dz", "ecp": {"Na": "lanl2dz"}, "charge": 1, "spin": 1},
+                                 None),
 }
+QUICK_FIXED = ["H2", "H3", "LiH"]
+QUICK_CONFIGURED = ["NaH/lanl2dz-ECP", "H2/GTH", "HeH+/6-31g", "LiH+ doublet", "H2 triplet/6-31g", "H2 cartesian d shell",
+                    "H2 spherical d shell", "H2 in Bohr", "Li2/GTH"]
+
+
+def auto_spaces(rng, n_electron, spin, n, count):
+    """`count` active spaces (n_active_ele, n_active_orb ≤ 3, list | None) valid for a molecule with the given electron number,
+    spin = N_alpha − N_beta and n spatial orbitals"""
+    n_beta = (n_electron - spin) // 2
+    out = []
+    for _ in range(200):
+        if len(out) >= count:
+            break
+        k = rng.randint(0, n_beta)  # doubly occupied frozen orbitals
+        ae = n_electron - 2 * k
+        na = (ae + spin) // 2
+        lo = max(na, 1) if ae else 0
+        if k + lo > n or lo > 3:
+            continue
+        ao = rng.randint(lo, min(3, n - k))
+        act = None
+        if ao and rng.random() < 0.6:
+            act = sorted(rng.sample(range(n), ao))
+            r = rng.random()
+            if r < 0.3:
+                rng.shuffle(act)
+            elif r < 0.45:
+                act.reverse()
+            if rng.random() < 0.3:
+                act = tuple(act)
+        if (ae, ao, act) not in out:
+            out.append((ae, ao, act))
+    return out
+
+
+def raw_core_hamiltonian(mol):
+    """PySCF's one-electron AO Hamiltonian restated term by term from its integral engine (not through quri-parts, not through
+    scf.hf.get_hcore): kinetic + nuclear attraction (or the GTH pseudopotential) + the scalar effective-core-potential term"""
+    h = mol.intor("int1e_kin")
+    if getattr(mol, "_pseudo", None):
+        from pyscf.gto import pp_int
+
+        h = h + pp_int.get_gth_pp(mol)
+    else:
+        h = h + mol.intor("int1e_nuc")
+    if len(getattr(mol, "_ecpbas", ())):
+        h = h + mol.intor("ECPscalar")
+    return h
 
 
 def set_diff(a, b) -> float:
@@ -1023,20 +1092,39 @@ def p_pyscf(ctx: Ctx):
     import quri_parts.pyscf.mol as PM
 
     rng = ctx.rng
-    names = ["H2", "H3", "LiH"] if ctx.quick() else ["H2", "H3", "LiH", "H2O"]
+    if ctx.quick():
+        # all fixed molecules, one ECP and one pseudopotential molecule, and a seed-dependent sample of the other configurations
+        names = QUICK_FIXED + QUICK_CONFIGURED[:2] + rng.sample(QUICK_CONFIGURED[2:], 2)
+    else:
+        names = list(MOLECULES)
     for name in names:
-        geom, spin, spaces = MOLECULES[name]
-        mol = gto.M(atom=geom, basis="sto-3g", spin=spin, verbose=0)
-        mf = scf.RHF(mol) if spin == 0 else scf.ROHF(mol)
-        mf.conv_tol = 1e-12
-        mf.run()
-        C_hf = mf.mo_coeff
-        n = int(mol.nao)
+        kw, spaces = MOLECULES[name]
+        configured = spaces is None
+        inp0 = {"molecule": name, "gto.M": kw}
+        try:
+            mol = gto.M(verbose=0, **kw)
+            spin = int(mol.spin)
+            mf = scf.RHF(mol) if spin == 0 else scf.ROHF(mol)
+            mf.conv_tol = 1e-12
+            mf.run()
+            C_hf = mf.mo_coeff
+            n = int(C_hf.shape[0])
+            # ---- raw AO quantities straight from PySCF's integral engine (not through quri-parts)
+            h_ao = raw_core_hamiltonian(mol)
+            chem_ao = mol.intor("int2e")
+            h_pyscf = mf.get_hcore()
+        except Exception as e:  # noqa: BLE001 – this PySCF build cannot set the molecule up: nothing to compare
+            ctx.count("pyscf", f"molecule-unavailable:{name}:{exc_name(e)}")
+            continue
+        if chem_ao.shape != (n,) * 4 or maxdiff(h_ao, h_pyscf) > 1e-9:
+            # a configuration whose core Hamiltonian the restatement above does not describe: PySCF's own hcore is the anchor
+            ctx.notes.append(f"{name}: restated core Hamiltonian differs from pyscf's get_hcore by {maxdiff(h_ao, h_pyscf):.2e}; get_hcore used")
+            h_ao = h_pyscf
+        scf_ok = bool(mf.converged)
+        if spaces is None:
+            spaces = auto_spaces(rng, mol.nelectron, spin, n, 3)
         n_alpha, n_beta = (mol.nelectron + spin) // 2, (mol.nelectron - spin) // 2
-        inp0 = {"molecule": name, "basis": "sto-3g", "geometry": geom, "spin": spin}
-        # ---- raw AO quantities straight from PySCF (not through quri-parts)
-        h_ao = mol.intor("int1e_kin") + mol.intor("int1e_nuc")
-        chem_ao = mol.intor("int2e")
+        ctx.count("molecule_config", ",".join(sorted(k for k in kw if k not in ("atom", "basis"))) or "plain")
         Z, R = mol.atom_charges(), mol.atom_coords()
         e_nuc = sum(Z[i] * Z[j] / np.linalg.norm(R[i] - R[j]) for i in range(len(Z)) for j in range(i))
         # ONE pair of integral-set objects per molecule, used for every orbital set and every active space below
@@ -1056,8 +1144,9 @@ def p_pyscf(ctx: Ctx):
             continue
         ctx.evaluations += 2
         if d_ao > TOL:
-            ctx.witness("pyscf-ao-integrals", "AO integrals / nuclear repulsion of the integral sets differ from PySCF's int1e_kin + int1e_nuc, "
-                        "int2e in the documented ordering g[p,q,r,s] = (ps|qr), Σ Z_i Z_j / r_ij", inp0, {"max_diff": d_ao})
+            ctx.witness("pyscf-ao-integrals", "AO integrals / nuclear repulsion of the integral sets differ from PySCF's core Hamiltonian "
+                        "(int1e_kin + int1e_nuc | GTH pseudopotential, + ECPscalar), int2e in the documented ordering "
+                        "g[p,q,r,s] = (ps|qr), Σ Z_i Z_j / r_ij (effective charges)", inp0, {"max_diff": d_ao})
             continue
         if bookkeeping != (mol.nelectron, spin, n, True, True):
             ctx.witness("pyscf-molecular-orbitals", "PySCFMolecularOrbitals does not report the molecule's electron count / spin / orbital "
@@ -1088,7 +1177,7 @@ def p_pyscf(ctx: Ctx):
                     ctx.witness("pyscf-vs-memory", "full-space spatial MO integrals of the PySCF-backed path, the in-memory path and the "
                                 "einsum of PySCF's raw AO integrals differ", inp1, {"max_diff": d})
                     continue
-                if n <= 7:
+                if n <= 9:
                     sp_py, sp_mem = py_set.to_full_space_mo_int(mo), mem_set.to_full_space_mo_int(mo)
                     as0, sp_mole = PM.get_spin_mo_integrals_from_mole(mol, C)
                     sp_cls = M.SpinMOeIntSet(e_nuc, py_set.ao_1e_int.to_mo1int(C), py_set.ao_2e_int.to_mo2int(C))
@@ -1106,19 +1195,20 @@ def p_pyscf(ctx: Ctx):
             except Exception as e:  # noqa: BLE001
                 ctx.witness("pyscf-raises", f"full-space integrals raise {exc_name(e)}", inp1, str(e)[:200])
                 continue
-            # HF determinant energy from the real in-memory spatial integrals (oracle Slater–Condon) = SCF energy
-            if not rotated:
-                e_hf = slater.det_energy_spatial(fs_mem.const, np.real(fs_mem.mo_1e_int.array),
-                                                 slater.chem_from_phys(np.real(fs_mem.mo_2e_int.array)), range(n_alpha), range(n_beta)).real
-                ctx.evaluations += 1
-                if abs(e_hf - mf.e_tot) > 1e-7:
-                    ctx.witness("hf-anchor", "Hartree–Fock determinant energy from the MO integrals differs from the SCF energy", inp1,
-                                {"from_integrals": e_hf, "scf": float(mf.e_tot)})
-                else:
-                    ctx.count("physics", "hf-anchor-ok")
+            # HF determinant energy from the real spatial integrals of EITHER path (oracle Slater–Condon) = PySCF's SCF energy
+            if not rotated and scf_ok:
+                for path, fs in (("in-memory", fs_mem), ("PySCF-backed", fs_py)):
+                    e_hf = slater.det_energy_spatial(fs.const, np.real(fs.mo_1e_int.array),
+                                                     slater.chem_from_phys(np.real(fs.mo_2e_int.array)), range(n_alpha), range(n_beta)).real
+                    ctx.evaluations += 1
+                    if abs(e_hf - mf.e_tot) > 1e-7:
+                        ctx.witness("hf-anchor", f"Hartree–Fock determinant energy from the full-space MO integrals ({path} path) differs from "
+                                    "PySCF's SCF energy", inp1, {"from_integrals": e_hf, "scf": float(mf.e_tot)})
+                    else:
+                        ctx.count("physics", "hf-anchor-ok")
             todo = list(spaces)
             if rotated and ctx.quick() and n > 3:
-                todo = rng.sample(todo, 3)
+                todo = rng.sample(todo, min(len(todo), 2 if configured else 3))
             if rotated:
                 rng.shuffle(todo)
             for ae, ao, act in todo:
@@ -1192,7 +1282,7 @@ def p_pyscf(ctx: Ctx):
                     continue
                 ctx.count("physics", "molecule-determinants-ok")
                 # (b) the Hartree–Fock determinant, when it lies in the active space
-                if not rotated:
+                if not rotated and scf_ok:
                     hf_bits = 0
                     for u, orb in enumerate(active):
                         hf_bits |= (1 << (2 * u)) * (orb < n_alpha) | (1 << (2 * u + 1)) * (orb < n_beta)
@@ -1206,7 +1296,7 @@ def p_pyscf(ctx: Ctx):
                         ctx.count("physics", "hf-anchor-reduced-ok")
                 # (c) PySCF CASCI with the same orbitals
                 na, nb = (ae + spin) // 2, (ae - spin) // 2
-                if ao >= 1:
+                if ao >= 1 and not (rotated and getattr(mol, "symmetry", False)):
                     try:
                         mc = mcscf.CASCI(mf, ao, ae)
                         mc.verbose = 0
